@@ -53,6 +53,17 @@ def roll_episode(rng, cls_name):
                 reward="pnl")
     w = Fraction(rng.choice([-1, 1]) * rng.randint(2, 12), 16)
     case["ops"] = [["reset", None, 0]] + [["step", [fr(w if rng.random() < 0.8 else w / 2)]] for _ in range(len(grid) - 1)]
+    margin = Fraction(case["space"]["margin"])
+    if margin > 0 and rng.random() < 0.6:
+        # a position built above the threshold, cut to a residual worth less than the threshold shortly before the
+        # roll: the old lead must still be closed at the roll (liquidations are not subject to the threshold)
+        big = Fraction(rng.choice([-1, 1]) * rng.randint(6, 12), 16)
+        small = (1 if big > 0 else -1) * margin * Fraction(rng.choice([1, 2, 3]), 4) + Fraction(1, 1024)
+        j = next((i for i, t in enumerate(grid) if t >= us(ltd)), len(grid) - 1)
+        cut = max(1, j - rng.choice([0, 1, 1, 2]))
+        later = rng.choice([small, small, big])
+        acts = [big if i < cut else small if i < j + 1 else later for i in range(len(grid) - 1)]
+        case["ops"] = [["reset", None, 0]] + [["step", [fr(a)]] for a in acts]
     case["kind"] = "episode"
     case["_roll"] = dict(symbol=fut.symbol, ltd=us(ltd), expiry=us(exp))
     return case
@@ -62,7 +73,7 @@ class C11(Prop):
     id = "C11"
     driver = "Env"
     quick_n = 60
-    thorough_n = 1500
+    thorough_n = 4000
     shrink_key = None
     exhaustive_flag = True
     rule = ("(a) lead resolution, exhaustive over each built-in class's chain span: FutureChain.lead_contract(now) for "
